@@ -44,7 +44,7 @@ def scenario(job: dict[str, Any]) -> dict[str, Any]:
     W.preload()
     root = scratch("c07-")
     src, cache, gate = os.path.join(root, "src"), os.path.join(root, "cache"), os.path.join(root, "gate")
-    out: dict[str, Any] = {"runs": [], "violations": [], "job": {k: job[k] for k in ("shape", "n", "variants", "store")}}
+    out: dict[str, Any] = {"runs": [], "violations": [], "job": {k: job[k] for k in ("shape", "n", "variants", "store", "ign") if k in job}}
     shape, n, store = job["shape"], job["n"], job["store"]
     tick = 1000
 
@@ -64,19 +64,20 @@ def scenario(job: dict[str, Any]) -> dict[str, Any]:
                                       % (what, cv["mod"], cv["replied"], cv["committed"])})
 
     variants = job["variants"]
-    par.write_program(src, shape, variants[0], tick)
+    ign = tuple(job.get("ign", ()))
+    par.write_program(src, shape, variants[0], tick, ign)
     r1 = par.run_parallel(src, cache_dir=cache, n=n, policy=par.Policy(**job["policies"][0]), gate=gate, store=store)
     out["runs"].append({"n": n, "shape": shape, "events": r1["events"], "status": r1["status"], "kind": "cold-parallel"})
     check(r1, variants[0], "cold -n %d" % n, "parallel")
     if len(variants) > 1:
         tick += 100
-        par.write_program(src, shape, variants[1], tick)
+        par.write_program(src, shape, variants[1], tick, ign)
         r2 = par.run_parallel(src, cache_dir=cache, n=n, policy=par.Policy(**job["policies"][1]), gate=gate, store=store)
         out["runs"].append({"n": n, "shape": shape, "events": r2["events"], "status": r2["status"], "kind": "warm-parallel"})
         check(r2, variants[1], "warm -n %d after edit" % n, "parallel")
     if len(variants) > 2:
         tick += 100
-        par.write_program(src, shape, variants[2], tick)
+        par.write_program(src, shape, variants[2], tick, ign)
         r3 = par.run_sequential(src, cache_dir=cache, store=store, tick=5000)
         check(r3, variants[2], "warm sequential run on the cache a parallel build left", "sequential-warm")
         # and one more parallel run with no edit at all: everything fresh
@@ -152,6 +153,12 @@ def main(argv: list[str]) -> int:
     for i, name in enumerate(named):
         jobs.append({"shape": ("diamond", "fan", "chain")[i % 3], "n": 3 if i % 2 == 0 else 2, "store": "fs", "variants": base_variants[i % len(base_variants)],
                      "policies": [{"name": name}, {"name": named[(i + 1) % len(named)]}]})
+    # a module whose diagnostics are ignored wholesale sits between an interface change and its users (its records still
+    # have to carry the indirect dependencies): diamond m4 / fan m6 / chain m3
+    for i, (shape, ig, vs) in enumerate([("diamond", [4], [{}, {1: 1}, {1: 0}]), ("diamond", [4, 2], [{1: 1}, {}, {1: 1}]), ("fan", [6], [{}, {1: 1}, {}]),
+                                         ("chain", [3], [{}, {1: 1}, {1: 0}]), ("chain", [2, 3], [{1: 1}, {}, {1: 1}])]):
+        jobs.append({"shape": shape, "n": 2 + i % 2, "store": "sqlite" if i % 2 else "fs", "variants": vs, "ign": ig,
+                     "policies": [{"name": named[i % len(named)]}, {"name": named[(i + 2) % len(named)]}]})
     if tier == "thorough":
         for n in (1, 4, 6, 8):
             for i, name in enumerate(named):
